@@ -24,6 +24,41 @@ CODES9 = ['#ERROR!', '#DIV/0!', '#NAME?', '#N/A', '#NULL!', '#NUM!', '#REF!', '#
 CODES8 = ['#NULL!', '#DIV/0!', '#VALUE!', '#REF!', '#NAME?', '#NUM!', '#N/A', '#GETTING_DATA']
 
 
+class EqAny(object):
+    """equal to everything (like unittest.mock.ANY)"""
+    def __eq__(self, other):
+        return True
+
+    def __ne__(self, other):
+        return False
+
+    __hash__ = object.__hash__
+
+
+class EqRaises(object):
+    """comparison with a foreign object raises"""
+    def __eq__(self, other):
+        if other is self:
+            return True
+        raise TypeError('cannot compare')
+
+    __hash__ = object.__hash__
+
+
+class EqElementwise(list):
+    """== returns a list (numpy style); its truth value as a whole is ambiguous"""
+    def __eq__(self, other):
+        return EqElementwise([x == other for x in self])
+
+    def __bool__(self):
+        raise ValueError('truth value of an element-wise comparison is ambiguous')
+
+    __hash__ = None
+
+
+_WEIRD = {}
+
+
 class Opaque(object):
     def __init__(self, n):
         self.n = n
@@ -56,6 +91,8 @@ def dec(spec):
             return v.encode('latin-1')
         if t == 'obj':
             return Opaque(v)
+        if t == 'weird':
+            return _WEIRD.setdefault(v, {'eqany': EqAny, 'eqraises': EqRaises, 'elementwise': lambda: EqElementwise([1, 2])}[v]())
         if t == 'dict':
             return dict((k, dec(x)) for k, x in v)
         if t == 'set':
